@@ -82,6 +82,11 @@ example : (run true init [.iWriteFinal, .iReturn, .iOpenStream, .wrapperLookup, 
 section LockLevel
 open MevCommit.UsableN
 
+@[simp] theorem C20N_addPeer_some (j i : Nat) : UsableN.addPeer (some j) i = some j := rfl
+
+@[simp] theorem C20N_addPeer_ne_none (r : Option Nat) (i : Nat) : UsableN.addPeer r i ≠ none := by
+  cases r <;> simp [UsableN.addPeer]
+
 /-- invariant of the lock-level model: the stream the initiator opened after its Connect returned
 is never refused, a waiter waits for the record that still counts the own handshake (or the peer is
 registered already), and a second look-up only happens once the peer is registered -/
@@ -89,19 +94,20 @@ structure C20N_Inv (s : NSt) : Prop where
   a : s.finalWritten = true → s.own ≠ .notBegun
   b : s.iConnected = true → s.finalWritten = true
   c : s.stream ≠ .notOpened → s.iConnected = true
-  d : (s.own = .registered ∨ s.own = .ended) → s.registered = true
-  e : s.stream = .recheck → s.registered = true
-  f : ∀ r, s.stream = .waiting r → s.registered = true ∨ (ownInFlight s = true ∧ s.cur = r)
+  d : (s.own = .registered ∨ s.own = .ended) → s.regId ≠ none
+  e : s.stream = .recheck → s.regId ≠ none
+  f : ∀ r, s.stream = .waiting r → s.regId ≠ none ∨ (ownInFlight s = true ∧ s.cur = r)
   g : s.stream ≠ .refused
+  i : ∀ j, s.stream = .accepted j → s.regId = some j
 
 theorem C20N_inv_init : C20N_Inv ninit := by
   constructor <;> simp [ninit]
 
 theorem C20N_step_inv (s : NSt) (x : NStep) (h : C20N_Inv s) : C20N_Inv (nstep true s x) := by
-  obtain ⟨a, b, c, d, e, f, g⟩ := h
+  obtain ⟨a, b, c, d, e, f, g, i⟩ := h
   cases x <;> simp only [nstep]
-  all_goals (try (split <;> first | exact ⟨a, b, c, d, e, f, g⟩ | skip))
-  all_goals (try (split <;> first | exact ⟨a, b, c, d, e, f, g⟩ | skip))
+  all_goals (try (split <;> first | exact ⟨a, b, c, d, e, f, g, i⟩ | skip))
+  all_goals (try (split <;> first | exact ⟨a, b, c, d, e, f, g, i⟩ | skip))
   all_goals (try (constructor <;> simp_all [ownInFlight, count, closed, beginRec] <;> grind))
   all_goals (cases hown : s.own <;> constructor <;> simp_all [ownInFlight, count])
 
@@ -129,11 +135,20 @@ theorem C20N_without_wait_refused :
 /-- once every handshake handler of the peer has returned, the wrapper — from whichever of its
 steps it is at — ends by invoking the handler -/
 theorem C20N_quiescent_accepts (s : NSt) (h : C20N_Inv s) (hq : count s = 0) (ho : s.stream ≠ .notOpened) :
-    (nrun true s [.w1, .w2, .w3, .w4]).stream = .accepted := by
-  obtain ⟨a, b, c, d, e, f, g⟩ := h
-  have hreg : s.registered = true := by
+    ∃ j, s.regId = some j ∧ (nrun true s [.w1, .w2, .w3, .w4]).stream = .accepted j := by
+  obtain ⟨a, b, c, d, e, f, g, i⟩ := h
+  have hreg : s.regId ≠ none := by
     cases hown : s.own <;> simp_all [ownInFlight, count]
-  cases hs : s.stream <;> simp_all [nrun, nstep, closed]
+  obtain ⟨j, hj⟩ := Option.ne_none_iff_exists'.mp hreg
+  refine ⟨j, hj, ?_⟩
+  cases hs : s.stream with
+  | notOpened => exact absurd hs ho
+  | pending => simp [nrun, nstep, hs, hj]
+  | notFound => simp [nrun, nstep, hs, hj, hq]
+  | waiting r => simp [nrun, nstep, hs, hj, hq, closed]
+  | recheck => simp [nrun, nstep, hs, hj]
+  | accepted k => have := i k hs; simp_all [nrun, nstep]
+  | refused => exact absurd hs g
 
 /-- the other handlers return one by one -/
 theorem C20N_others_end (n : Nat) (s : NSt) (hn : s.others = n) :
@@ -166,7 +181,7 @@ def completion (s : NSt) : List NStep :=
 responder's handlers return leads the opened stream to `accepted` — the wait of
 `waitInboundHandshake` cannot deadlock, for any number of concurrent handlers -/
 theorem C20N_always_completable (s : NSt) (h : C20N_Inv s) (ho : s.stream ≠ .notOpened) :
-    (nrun true s (completion s)).stream = .accepted := by
+    (nrun true s (completion s)).stream.isAccepted = true := by
   have hf : s.finalWritten = true := h.b (h.c ho)
   have h1 := C20N_run_inv [.rReadVerify, .rRegister, .rDone] s h
   have hend := C20N_own_ends s h hf
@@ -176,19 +191,74 @@ theorem C20N_always_completable (s : NSt) (h : C20N_Inv s) (ho : s.stream ≠ .n
   generalize nrun true s [.rReadVerify, .rRegister, .rDone] = s1 at *
   have h2 := C20N_run_inv (List.replicate s.others .oEnd) s1 h1
   rw [C20N_others_end s.others s1 hoth] at h2 ⊢
-  apply C20N_quiescent_accepts _ h2
-  · simp [count, ownInFlight, hend]
-  · simpa [hstr] using ho
+  obtain ⟨j, _, hj⟩ := C20N_quiescent_accepts _ h2 (by simp [count, ownInFlight, hend]) (by simpa [hstr] using ho)
+  simp [hj, WPhase.isAccepted]
 
 /-- … in particular from every reachable state -/
 theorem C20N_reachable_completable (xs : List NStep) (ho : (nrun true ninit xs).stream ≠ .notOpened) :
-    (nrun true ninit (xs ++ completion (nrun true ninit xs))).stream = .accepted := by
+    (nrun true ninit (xs ++ completion (nrun true ninit xs))).stream.isAccepted = true := by
   rw [C20N_run_append]
   exact C20N_always_completable _ (C20N_run_inv xs ninit C20N_inv_init) ho
 
 /-- non-vacuity: two further handlers of the same peer come and go around the waiter -/
 example : (nrun true ninit [.oBegin, .rBegin, .oEnd, .iWriteFinal, .iReturn, .iOpenStream, .oBegin, .w1, .w2,
-    .rReadVerify, .oEnd, .w3, .rRegister, .rDone, .w3, .w4]).stream = .accepted := by decide
+    .rReadVerify, .oEnd, .w3, .rRegister, .rDone, .w3, .w4]).stream = .accepted 0 := by decide
+
+/-- **with the proven identity**: in every reachable state the identity the handler was invoked with
+is the record the registry holds for the peer, i.e. the identity proven by the first handshake of
+that peer that completed (`addPeer` keeps an existing record; nothing removes it while the
+connection stays open) -/
+theorem C20N_identity_is_registered (xs : List NStep) (j : Nat)
+    (h : (nrun true ninit xs).stream = .accepted j) : (nrun true ninit xs).regId = some j :=
+  (C20N_run_inv xs ninit C20N_inv_init).i j h
+
+/-- the record of a registered peer is stable under every step: later handshakes of the same peer
+(claiming whatever role) do not replace the identity handlers are given -/
+theorem C20N_record_stable (w : Bool) (s : NSt) (x : NStep) (j : Nat) (h : s.regId = some j) :
+    (nstep w s x).regId = some j := by
+  cases x <;> simp only [nstep]
+  all_goals (try (split <;> try split))
+  all_goals (try (simp_all [beginRec] ; done))
+  all_goals (simp only [beginRec]; split <;> simp_all)
+
+/-- when only the own handshake ever registers, the identity handed over is the one it proved -/
+theorem C20N_own_identity (xs : List NStep) (hx : ∀ i, NStep.oRegister i ∉ xs) (j : Nat)
+    (h : (nrun true ninit xs).stream = .accepted j) : j = 0 := by
+  have key : ∀ (xs : List NStep) (s : NSt), (∀ i, NStep.oRegister i ∉ xs) → (s.regId = none ∨ s.regId = some 0) →
+      ((nrun true s xs).regId = none ∨ (nrun true s xs).regId = some 0) := by
+    intro xs
+    induction xs with
+    | nil => intro s _ h; exact h
+    | cons x xs ih =>
+      intro s hx h
+      apply ih
+      · intro i hi; exact hx i (List.mem_cons_of_mem _ hi)
+      · cases x with
+        | oRegister i => exact absurd List.mem_cons_self (hx i)
+        | rRegister =>
+          simp only [nstep]; split
+          · rcases h with h | h <;> simp [h, addPeer]
+          · exact h
+        | rBegin => simp only [nstep, beginRec]; repeat' split
+                    all_goals exact h
+        | oBegin => simp only [nstep, beginRec]; repeat' split
+                    all_goals exact h
+        | w1 => simp only [nstep]; repeat' split
+                all_goals exact h
+        | w2 => simp only [nstep]; repeat' split
+                all_goals exact h
+        | w3 => simp only [nstep]; repeat' split
+                all_goals exact h
+        | w4 => simp only [nstep]; repeat' split
+                all_goals exact h
+        | oEnd => simp only [nstep]; split <;> exact h
+        | iWriteFinal => simp only [nstep]; split <;> exact h
+        | iReturn => simp only [nstep]; split <;> exact h
+        | iOpenStream => simp only [nstep]; split <;> exact h
+        | rReadVerify => simp only [nstep]; split <;> exact h
+        | rDone => simp only [nstep]; split <;> exact h
+  have hr := C20N_identity_is_registered xs j h
+  rcases key xs ninit hx (Or.inl rfl) with h0 | h0 <;> simp_all
 
 /-- a plausible variant of the repair — the record is deleted and its channel closed by the *first*
 handler that returns instead of the last (no counting); handlers still running carry on under a
